@@ -19,6 +19,7 @@ class Item:
         self.body = None        # (open_brace_index, close_brace_index) for containers
         self.children = []
         self.key = None
+        self.is_pub = False     # carries a `pub` / `pub(..)` visibility
 
     def __repr__(self):
         return 'Item(%s,%d..%d)' % (self.key, self.start, self.end)
@@ -163,6 +164,16 @@ def parse_items(toks, lo, hi):
             raise ItemError('unknown item keyword %r at line %d' % (k, kw.line))
     _assign_keys(items)
     return items
+
+
+def _mark_pub(items, toks):
+    for it in items:
+        j = it.start
+        while j < it.end and is_p(toks[j], '#') and j + 1 < it.end and is_p(toks[j + 1], '['):
+            j = match_close(toks, j + 1) + 1
+        it.is_pub = j < it.end and is_id(toks[j], 'pub')
+        if it.children:
+            _mark_pub(it.children, toks)
 
 
 def _end_brace_or_semi(toks, i, hi):
